@@ -127,6 +127,27 @@ def _project_case(case, c, s, o):
     m.T = (T + 1.0 * s).copy()
     m.sigma = sig.copy()
     check_all(T + 1.0 * s, sig, "after T and sigma were replaced")
+    if C >= 2:
+        # a long recording (2^18 frames per component) with a tiny fractional count (2^-10 of a frame) on a sharp, strongly
+        # loaded component: that component still shapes the posterior
+        from bob.learn.em import GMMStats
+
+        Tl, sl = T.copy(), sig.copy()
+        Tl[0] *= 16.0
+        sl[0] = 2.0**-16 * s * s
+        m.T, m.sigma = Tl.copy(), sl.copy()
+        lg = GMMStats(C, D)
+        lg.n = np.array([2.0**-10] + [2.0**18] * (C - 1))
+        lg.t = int(2**18 * (C - 1))
+        off = (np.abs(c11._pattern((C, D), case["tp"] + 2, 1.0)) + 0.5) * s * 2.0**-6
+        off[0] = 0.5 * s
+        lg.sum_px = lg.n[:, None] * (um + off)
+        lg.sum_pxx = lg.n[:, None] * ((um + off) ** 2 + sl)
+        w = np.asarray(m.project(lg), float)
+        want, _, _ = ofa.ivector(um, Tl, sl, np.asarray(lg.n, float), np.asarray(lg.sum_px, float))
+        c.close(w, want, "posterior_mean", "long recording with a tiny count on a sharp component: project vs solution of the posterior-mean system", tags,
+                rtol=1e-7, scale=float(np.abs(want).max()) + 1e-12, kappa=1e6)
+        c.transitions += 1
     return nonzero, "p|%d|%d|%d" % (case["ubm"], case["tp"], t)
 
 
